@@ -112,7 +112,7 @@ def run_properties(props, args, seed, scratch, manifest):
                 else:
                     viol.append((o, r, "known-finding witness no longer reproduces but the obligation still fails: %s" % wout[-500:]))
                 continue
-            if r["answer"] == "unknown":
+            if r["answer"] in ("unknown", "error"):
                 undecided.append(name)
             viol.append((o, r, "refuted" if r["answer"] == "sat" else "undecided (%s)" % r["answer"]))
         # baseline: obligations that disappeared
